@@ -14,5 +14,5 @@ INIT MCInit
 NEXT MCNext
 SYMMETRY Symm
 VIEW LockView
-INVARIANTS TypeOK CloseInvalidatesOwn NoOrphans CursorInRange IdsUnique NoSelfDeadlock NoHang NoWaitCycle LocksOwned
+INVARIANTS TypeOK CloseInvalidatesOwn NoOrphans CursorInRange IdsUnique NoSelfDeadlock NoHang NoWaitCycle LockOrderInv LocksOwned
 CHECK_DEADLOCK TRUE
